@@ -836,7 +836,7 @@ class Grammar:
 
 
 def gen_contract(rng, name="T", ntests=3, pool=(), with_helper=None, bytes_sizes=None, array_sizes=None,
-                 panic_codes=(1,), refine=True, touch=False, loops=False, siblings=None, subst=None, jumps=None) -> Generated:
+                 panic_codes=(1,), refine=True, touch=False, loops=False, siblings=None, subst=None, jumps=None, tails=None) -> Generated:
     """setUp() storing constants (optionally deploying a helper whose address is kept in a slot) + `ntests` check functions,
     alternately reachable / unreachable, at least one with a dynamic parameter and one needing refinement per few contracts."""
     g = Grammar(rng, pool, bytes_sizes, array_sizes, panic_codes, refine)
@@ -847,6 +847,12 @@ def gen_contract(rng, name="T", ntests=3, pool=(), with_helper=None, bytes_sizes
     for s, v in storage.items():
         setup += [("push", v), ("push", s), "SSTORE"]
     others = []
+    tail_chk = None
+    if tails:
+        g.n += 1
+        tail_chk = gen_tail_check(rng, ntests + 4, g, **(tails if isinstance(tails, dict) else {}))
+        if tail_chk.callee == "helper":
+            with_helper = True
     if with_helper is None:
         with_helper = rng.random() < 0.3
     if with_helper:
@@ -872,6 +878,8 @@ def gen_contract(rng, name="T", ntests=3, pool=(), with_helper=None, bytes_sizes
     if loops:
         g.n += 1
         checks.append(gen_loop_check(rng, ntests, g))
+    if tail_chk is not None:
+        checks.append(tail_chk)
     if jumps:
         g.n += 1
         checks.append(gen_jump_check(rng, ntests + 3, g, **(jumps if isinstance(jumps, dict) else {})))
@@ -946,6 +954,53 @@ def gen_jump_check(rng, idx, g: "Grammar", K=None, use_k=None) -> JumpCheck:
     params = [Param("uint256", "x")]
     return JumpCheck(f"check_{idx}_jump{g.n}", params, [Bin("EQ", Arg(0), Const(c))], rng.choice(["panic", "flag"]), 1, True, [c], None,
                      "and", f"jumpdest-after-push32:{'eip1967' if K == EIP1967_IMPL_SLOT else 'random'}:{use_k}", True, [], None, K, use_k)
+
+
+@dataclass
+class TailCheck(Check):
+    """a word depending on a parameter is stored in the TAIL of a call's output window; the callee returns fewer bytes than the
+    window (identity precompile with a shorter input, or the helper contract returning one word into a two-word window); the
+    failure is guarded by the word read back from the tail (the EVM leaves the part of the window beyond the returned data
+    untouched)."""
+    callee: str = "identity"   # identity | helper
+    op: str = "STATICCALL"
+    short: int = 32            # bytes actually returned
+    window: int = 64
+
+    def body(self) -> list:
+        x = asm.calldata_arg(0)
+        out = 0x100
+        tail = out + self.window - 32
+        items = list(self.prologue) + x + [("push", tail), "MSTORE"]
+        val = [] if self.op == "STATICCALL" else [("push", 0)]
+        if self.callee == "identity":
+            items += [("push", 0xAB), ("push", 0x80), "MSTORE"]
+            items += [("push", self.window), ("push", out), ("push", self.short), ("push", 0x80)] + val + [("push", 4), "GAS", self.op, "POP"]
+        else:
+            items += asm.selector_word(asm.selector("get()")) + [("push", 0x80), "MSTORE"]
+            items += [("push", self.window), ("push", out), ("push", 4), ("push", 0x80)] + val + [("push", FIRST_CREATED, 20), "GAS", self.op, "POP"]
+        g = asm.eq_const([("push", tail), "MLOAD"], self._c)
+        for a in self.atoms[1:]:
+            g = g + a.compile() + ["AND"]
+        bad = asm.panic(1) if self.kind == "panic" else (asm.set_fail_flag() + ["STOP"])
+        if self.kind == "assertTrue":
+            return items + vm_call("assertTrue", [g + ["ISZERO"]]) + ["STOP"]
+        return items + asm.if_then(g, bad) + ["STOP"]
+
+    _c: int = 0
+
+
+def gen_tail_check(rng, idx, g: "Grammar", callee=None, op=None) -> TailCheck:
+    callee = callee or rng.choice(["identity", "identity", "helper"])
+    op = op or rng.choice(["STATICCALL", "CALL"])
+    short = rng.choice([1, 31, 32]) if callee == "identity" else 32
+    window = rng.choice([64, 96]) if short == 32 else rng.choice([64, 33 + 31])
+    c = g.word() or 9
+    chk = TailCheck(f"check_{idx}_tail{g.n}", [Param("uint256", "x")], [Bin("EQ", Arg(0), Const(c))], rng.choice(["panic", "flag", "assertTrue"]),
+                    1, True, [c], None, "and", f"memory-tail-of-output-window:{callee}:{op}:ret{short}of{window}", True, [], None,
+                    callee, op, short, window)
+    chk._c = c
+    return chk
 
 
 @dataclass
